@@ -385,21 +385,23 @@ static void one_small(Chk &c, const Csr<double> &A, float eps, int cls, bool sym
     if (symmetric && cls != 2 && rs_admissible(A)) { check_rs(c, A, eps == 0 ? 0.25f : eps, mask % 2 == 0, mask % 4 < 2 ? 0.2f : 0.5f, ""); }
 }
 
-static void sub_exhaustive(const std::string &sub, size_t n, bool symmetric) {
+static void sub_exhaustive(const std::string &sub, size_t n, bool symmetric, uint64_t batch, const std::vector<int> &eps_idx) {
     if (!vf::sub_enabled(sub)) return;
-    uint64_t nmask = symmetric ? 1ULL << (n * (n - 1) / 2) : 1ULL << (n * (n - 1)); const uint64_t batch = 512; long idx = 0;
-    for (int cls = 0; cls < 3; ++cls) for (int ie = 0; ie < 4; ++ie) for (uint64_t base = 0; base < nmask; base += batch, ++idx) {
+    uint64_t nmask = symmetric ? 1ULL << (n * (n - 1) / 2) : 1ULL << (n * (n - 1)); long idx = 0;
+    for (int cls = 0; cls < 3; ++cls) for (int ie : eps_idx) for (uint64_t base = 0; base < nmask; base += batch, ++idx) {
         if (!vf::selected(sub, idx)) continue;
         Case cs(sub, idx, J().s("values", CLS_NAME[cls]).n("eps_strong", EPS_LIST[ie]).n("n", n).n("mask_from", base).n("masks", std::min(batch, nmask - base))); Chk c(cs);
         for (uint64_t m = base; m < std::min(nmask, base + batch); ++m) {
             uint64_t full = symmetric ? vf::sym_mask_to_full(n, m) : m;
             Csr<double> A = small_matrix(n, full, cls, m);
             if (symmetric) require(is_symmetric(A), "small_matrix symmetric");
-            c.ctx = "mask=" + std::to_string(m); one_small(c, A, EPS_LIST[ie], cls, symmetric, m);
+            c.ctx = "mask=" + std::to_string(m);
+            try { one_small(c, A, EPS_LIST[ie], cls, symmetric, m); } catch (const std::exception &e) { c.check(false, "exception:" + sub, e.what()); }
             if (m) c.nontrivial();
         }
     }
-    vf::obs_set(sub + "_space", symmetric ? "all 2^15 symmetric graphs on 6 vertices x {mmatrix, mixed, posoff} x eps_strong {0, .08, .25, .5}" : "all 2^12 directed patterns on 4 vertices x {mmatrix, mixed, posoff} x eps_strong {0, .08, .25, .5}");
+    std::string eps_txt; for (int ie : eps_idx) eps_txt += (eps_txt.empty() ? "" : ", ") + std::to_string(EPS_LIST[ie]).substr(0, 4);
+    vf::obs_set(sub + "_space", std::string("all 2^") + std::to_string(symmetric ? n * (n - 1) / 2 : n * (n - 1)) + (symmetric ? " symmetric graphs on " : " directed patterns on ") + std::to_string(n) + " vertices x {mmatrix, mixed, posoff} x eps_strong {" + eps_txt + "}");
 }
 
 //---------------------------------------------------------------------------
@@ -470,12 +472,13 @@ template <class C> static void lift_transfer(Chk &c, const std::string &name, co
 
 static void sub_lift() {
     if (!vf::sub_enabled("lift")) return;
-    long N = vf::tier(60, 600);
+    long N = vf::tier(60, 2000);
     for (long idx = 0; idx < N; ++idx) {
         if (!vf::selected("lift", idx)) continue;
         Rng r(vf::case_seed("lift", idx)); Gen g = gen_matrix(r, vf::thorough() && idx % 7 == 0 ? 40 : 16);
         int b = (int)r.range(2, 4); float eps = r.pick(std::vector<float>{0.0f, 0.08f, 0.08f, 0.25f, 0.5f});
         Case cs("lift", idx, g.A.desc(g.family).n("b", b).n("eps_strong", eps).n("threads", omp_get_max_threads())); Chk c(cs);
+        try {
         AggrOut pl = check_plain(c, g.A, eps, "");
         check_lift_aggr(c, g.A, pl, eps, b, "");
         M a = to_amg(g.A); Csr<double> Ab = vf::kron(g.A, vf::identity_block(b), b); M ab = to_amg(Ab);
@@ -484,7 +487,8 @@ static void sub_lift() {
         // energy-minimising SA accumulates its column dampings under `omp critical`: bitwise only single-threaded
         if (omp_get_max_threads() == 1) lift_transfer<coarsening::smoothed_aggr_emin<B>>(c, "smoothed_aggr_emin", a, ab, b, eps);
         if (!pl.empty) c.nontrivial();
-        vf::sample("lift", g.A.desc(g.family).n("b", b).n("eps_strong", eps).n("aggregates", pl.count));
+        } catch (const std::exception &e) { c.check(false, "exception:lift", e.what()); }
+        vf::sample("lift", g.A.desc(g.family).n("b", b).n("eps_strong", eps));
     }
 }
 
@@ -492,13 +496,14 @@ static void sub_lift() {
 // the flags must be the expansion of the flags of the reduced (one norm per block) matrix.
 static void sub_block_aggr() {
     if (!vf::sub_enabled("block_aggr")) return;
-    long N = vf::tier(60, 800);
+    long N = vf::tier(60, 3000);
     for (long idx = 0; idx < N; ++idx) {
         if (!vf::selected("block_aggr", idx)) continue;
         Rng r(vf::case_seed("block_aggr", idx)); Gen g = gen_matrix(r, 12); int b = (int)r.range(2, 4);
         Csr<double> Ab = vf::kron(g.A, vf::spd_block(b, r), b); bool punched = r.coin(); if (punched) Ab = vf::punch_blocks(Ab, r.uni(0.1, 0.6), r);
         float eps = r.pick(std::vector<float>{0.0f, 0.08f, 0.25f}); unsigned min_aggr = (unsigned)r.range(0, 2 * b);
         Case cs("block_aggr", idx, Ab.desc("G5-" + g.family).n("b", b).bl("incomplete_blocks", punched).n("eps_strong", eps).n("min_aggregate", min_aggr)); Chk c(cs);
+        try {
         // reduced matrix by definition: entry (I,J) present iff the block stores something, value = max |a_ij|
         size_t np = g.A.n; std::vector<std::map<ptrdiff_t, double>> red(np);
         for (size_t i = 0; i < Ab.n; ++i) for (auto j = Ab.ptr[i]; j < Ab.ptr[i + 1]; ++j) { double &v = red[i / b][Ab.col[j] / b]; v = std::max(v, std::fabs(Ab.val[j])); }
@@ -521,12 +526,13 @@ static void sub_block_aggr() {
             c.check(flags, "pointwise_aggregates:strong-flag", "flags are not the expansion of the reduced matrix's flags (diagonal excluded)");
             c.nontrivial();
         }
-    }
+        } catch (const std::exception &e) { c.check(false, "exception:block_aggr", e.what()); }
+            }
 }
 
 static void sub_ptent_sa() {
     if (!vf::sub_enabled("ptent_sa")) return;
-    long N = vf::tier(120, 1500);
+    long N = vf::tier(120, 6000);
     for (long idx = 0; idx < N; ++idx) {
         if (!vf::selected("ptent_sa", idx)) continue;
         Rng r(vf::case_seed("ptent_sa", idx)); Gen g = gen_matrix(r, vf::thorough() && idx % 9 == 0 ? 45 : 14);
@@ -535,16 +541,18 @@ static void sub_ptent_sa() {
         NullSpace ns = gen_nullspace(r, A.n, b, g.nx);
         SaCfg cfg; cfg.b = b; cfg.eps = r.pick(std::vector<float>{0.0f, 0.08f, 0.08f, 0.25f, 0.5f}); cfg.relax = r.pick(std::vector<float>{1.0f, 1.0f, 0.5f, 1.3f}); cfg.est = r.coin(0.4);
         Case cs("ptent_sa", idx, A.desc(fam).n("b", b).s("nullspace", ns.kind).n("cols", ns.cols).n("eps_strong", cfg.eps).n("relax", cfg.relax).bl("estimate_spectral_radius", cfg.est).bl("symmetric", sym).n("threads", omp_get_max_threads())); Chk c(cs);
+        try {
         check_sa(c, A, cfg, ns, sym, "");
         if (b == 1) check_plain(c, A, cfg.eps, "");
         c.nontrivial();
+        } catch (const std::exception &e) { c.check(false, "exception:ptent_sa", e.what()); }
         vf::sample("ptent_sa", A.desc(fam).n("b", b).s("nullspace", ns.kind).n("cols", ns.cols).n("eps_strong", cfg.eps));
     }
 }
 
 static void sub_rowsum() {
     if (!vf::sub_enabled("rowsum")) return;
-    long N = vf::tier(100, 1200);
+    long N = vf::tier(100, 4000);
     for (long idx = 0; idx < N; ++idx) {
         if (!vf::selected("rowsum", idx)) continue;
         Rng r(vf::case_seed("rowsum", idx)); Gen g; do { g = gen_matrix(r, vf::thorough() && idx % 9 == 0 ? 40 : 14); } while (g.family.find("exact-rowsum") == std::string::npos);
@@ -555,10 +563,12 @@ static void sub_rowsum() {
         require(is_symmetric(A), "rowsum generator symmetric");
         float eps = r.pick(std::vector<float>{0.1f, 0.25f, 0.25f, 0.5f}); bool trunc = r.coin(0.6); float et = r.pick(std::vector<float>{0.05f, 0.2f, 0.2f, 0.5f});
         Case cs("rowsum", idx, A.desc(g.family).bl("mixed_signs", mixed).n("rs_eps_strong", eps).bl("do_trunc", trunc).n("eps_trunc", et).n("threads", omp_get_max_threads())); Chk c(cs);
+        try {
         if (rs_admissible(A)) check_rs(c, A, eps, trunc, et, "");
         SaCfg cfg; cfg.eps = r.pick(std::vector<float>{0.0f, 0.08f, 0.25f}); cfg.relax = r.pick(std::vector<float>{1.0f, 0.6f}); cfg.est = r.coin(); NullSpace none;
         check_sa(c, A, cfg, none, true, "");
         c.nontrivial();
+        } catch (const std::exception &e) { c.check(false, "exception:rowsum", e.what()); }
         vf::sample("rowsum", A.desc(g.family).bl("mixed_signs", mixed).bl("do_trunc", trunc));
     }
 }
@@ -566,8 +576,9 @@ static void sub_rowsum() {
 int main(int argc, char **argv) {
     vf::init(argc, argv);
     vf::obs_add("threads_seen", std::to_string(omp_get_max_threads()));
-    sub_exhaustive("exh_sym6", 6, true);
-    sub_exhaustive("exh_dir4", 4, false);
+    sub_exhaustive("exh_sym6", 6, true, 512, {0, 1, 2, 3});
+    sub_exhaustive("exh_dir4", 4, false, 512, {0, 1, 2, 3});
+    if (vf::thorough()) sub_exhaustive("exh_sym7", 7, true, 4096, {1, 2});     // 2^21 graphs x 3 value classes x 2 eps_strong
     sub_lift();
     sub_block_aggr();
     sub_ptent_sa();
